@@ -35,7 +35,7 @@ def job_accepts(job, depth, maxlen, syms='ab', shape=None):
     nr = c.native('regexp_algorithms')
     job.differential(40, lambda mv: {w: c.conc(res[w], mv) for w in words},
                      lambda mv: (lambda rn: {w: nr.regexp_accepts_word(rn, w) for w in words})(nat.mk_regexp(regexp_json(r, mv), c.native('regexp'))),
-                     'regexp_accepts_word')
+                     'regexp_accepts_word', replay=('accepts', {'r': lambda mv: regexp_json(r, mv), 'word': words[-1]}))
     sem = Sem()
     d = E.dag
     for w in words:
